@@ -178,12 +178,43 @@ def parse_set(s):
     return sorted(x.strip().strip('"') for x in s.split(",") if x.strip())
 
 
+MAX_TRACE_LINES = 150000
+
+
 def validate_trace(module, cfg_text, trace_path, timeout=900):
     """Validate a concatenated trace file in one TLC run.  The trace specification judges every
     scenario at its scen.end event and prints one VIOLATED line per violating scenario, then goes on,
     so every violating scenario is reported and the rest of the file is still examined.
     Returns dict(violations=[{scenario, names, line}], binding_lost=[...], lines, scenarios, tlc_states)."""
     scen = list(split_scenarios(trace_path))
+    total = sum(len(ls) for _, ls in scen)
+    if total > MAX_TRACE_LINES and len(scen) > 1:
+        # TLC holds the whole trace in memory: validate an oversized file piecewise, cut at scenario boundaries
+        parts, cur, n = [], [], 0
+        for sid, ls in scen:
+            if cur and n + len(ls) > MAX_TRACE_LINES:
+                parts.append(cur)
+                cur, n = [], 0
+            cur.append(ls)
+            n += len(ls)
+        if cur:
+            parts.append(cur)
+        tot = {"violations": [], "binding_lost": set(), "scenarios": 0, "lines": 0, "tlc_states": 0, "rounds": 0, "wall": 0.0}
+        for k, part in enumerate(parts):
+            pp = "%s.part%d" % (trace_path, k)
+            with open(pp, "w") as f:
+                for ls in part:
+                    f.writelines(ls)
+            try:
+                r = validate_trace(module, cfg_text, pp, timeout)
+            finally:
+                os.unlink(pp)
+            tot["violations"] += r["violations"]
+            tot["binding_lost"] |= set(r["binding_lost"])
+            for key in ("scenarios", "lines", "tlc_states", "rounds", "wall"):
+                tot[key] += r[key]
+        tot["binding_lost"] = sorted(tot["binding_lost"])
+        return tot
     ids = [i for i, _ in scen if i is not None]
     res = run_tlc(module, cfg_text, files={"trace.ndjson": trace_path}, workers=1, timeout=timeout, java_opts="-Xss64m -Xmx6g")
     out = res["out"]
